@@ -251,6 +251,10 @@ func AddrOf(class string) *rapid.Generator[Addr] {
 		default:
 			if rapid.Bool().Draw(t, "v6") {
 				s = "/ip6/" + IP6(c).Draw(t, "ip").String()
+				if rapid.IntRange(0, 3).Draw(t, "zoned") == 0 {
+					// the zone-scoped form of the same address
+					s = "/ip6zone/" + rapid.SampledFrom([]string{"eth0", "lo", "x"}).Draw(t, "zone") + s
+				}
 			} else {
 				s = "/ip4/" + IP4(c).Draw(t, "ip").String()
 			}
